@@ -15,18 +15,40 @@ View(p, total, h) == [i \in 1..h |-> IF p + i - 1 < total THEN p + i - 1 ELSE -1
 \* documented resolution of a stored position: negative = counted from the bottom
 Resolve(stored, total, h) == Clamp(IF stored < 0 THEN total - h + stored + 1 ELSE stored, total, h)
 
-\* documented navigation (exact amounts are not part of the property: compared as DIVERGENCE only)
+\* documented navigation: a line, a page (view height minus one row of context), the two ends
 Nav(p, key, total, h) ==
   Clamp(CASE key = "up" -> p - 1 [] key = "down" -> p + 1
           [] key = "page up" -> p - (h - 1) [] key = "page down" -> p + (h - 1)
           [] key = "home" -> 0 [] key = "end" -> MaxPos(total, h) [] OTHER -> p, total, h)
 ScrollKeys == {"up", "down", "page up", "page down", "home", "end"}
 
+\* The position a rendering shows: the stored position resolved against the content and the view of THIS rendering,
+\* then the key pressed since the last rendering (if any).  A key is used up by the rendering that follows it, whether
+\* or not there was anything to scroll: with pend = "" a resize / content change can only clamp.
+Shown(stored, pend, total, h) ==
+  LET p0 == Resolve(stored, total, h) IN IF pend = "" THEN p0 ELSE Nav(p0, pend, total, h)
+
+\* set_scrollpos stores any integer ("adjusted during rendering"): when a key is pressed on top of a stored position that
+\* is out of range and not yet rendered, the contract does not say whether the adjustment or the key comes first - the
+\* implementation may move from the raw position and clamp afterwards.  Both orders agree whenever the stored position is
+\* in range (checked on the model: Scrollable!OrdersAgreeInRange).
+Raw(stored, total, h) == IF stored < 0 THEN total - h + stored + 1 ELSE stored
+ShownLate(stored, pend, total, h) ==
+  LET r == Raw(stored, total, h) IN IF pend = "" THEN Clamp(r, total, h) ELSE Nav(r, pend, total, h)
+ShownOK(p, stored, pend, total, h) == p = Shown(stored, pend, total, h) \/ p = ShownLate(stored, pend, total, h)
+
+\* wheel events not handled by the wrapped widget move the displayed position by one row (ScrollBar only)
+WheelPos(p, dir) == IF dir = "up" THEN Max2(p - 1, 0) ELSE p + 1
+
 (* ---- scrollbar geometry: top trough, thumb, bottom trough ---- *)
 BarDrawnOK(drawn, total, h) == drawn <=> (total > h)
 PartsOK(top, thumb, bottom, h) == top >= 0 /\ thumb >= 1 /\ bottom >= 0 /\ top + thumb + bottom = h
 \* the thumb leaves the top exactly when the first row is scrolled out of view (when there is room to leave)
 ThumbTopOK(top, thumb, p, h) == (h > thumb) => ((top > 0) <=> (p > 0))
+
+\* the width handed to the wrapped widget - for rendering, keys and mouse events alike: the bar takes its columns
+\* exactly while it is drawn
+ChildWidth(drawn, w, barw) == IF drawn THEN w - barw ELSE w
 
 \* a reference geometry used to show the contract is satisfiable for every (total, h, p)
 RefThumb(total, h) == Max2(1, Min2(h - (IF h > 1 THEN 1 ELSE 0), (h * h) \div total))
